@@ -1,12 +1,229 @@
-//! C15 — ops evaluated on the real code and the generator of their inputs.
-#![allow(unused_imports, dead_code, clippy::all)]
+//! C15 — the seeded random generators on the real code.
+//!
+//!   rand_tournament <repr> <order> <seed>                    =>  <obs|panic> <repeat>
+//!   rand_rrt        <repr> <order> <seed>                    =>  <obs|panic> <repeat>
+//!   rand_er         <repr> <order> <pbits> <qbits> <seed>    =>  <obs|panic> <repeat>
+//!   rand_f64        <seed> <k>                               =>  [bits of the first k next_f64()]
+//!   rand_u64        <seed> <k>                               =>  [first k next()]
+//!
+//! `repr` ∈ al am mx el.  `obs` = `graphs::observe` of the returned digraph; `repeat` = whether a
+//! second call with equal arguments returned an equal digraph (`==`; two panics count as equal).
+//! `pbits = p.to_bits()`; `qbits = (1.0 - p).to_bits()` as THIS harness computes it (the model
+//! never subtracts doubles; `eval` refuses a line whose `qbits` is not what it computes itself).
+//! Seeds are full `u64` (the protocol's integers are arbitrary precision on both sides).
+#![allow(clippy::all)]
 
-use crate::graphs::{self, Desc};
+use crate::graphs;
 use crate::rng::Rng;
 use crate::value::V;
+use graaf::gen::prng::Xoshiro256StarStar;
+use graaf::{AdjacencyList, AdjacencyMap, AdjacencyMatrix, EdgeList, ErdosRenyi, RandomRecursiveTree, RandomTournament};
+use std::panic::{catch_unwind, AssertUnwindSafe};
 
-pub fn eval(_op: &str, _args: &[V]) -> Option<Vec<V>> {
-    None
+/// Call `f` twice; observe the first result and compare the two.
+fn twice<D>(f: impl Fn() -> D) -> Vec<V>
+where
+    D: graaf::Order + graaf::Vertices + graaf::Arcs + PartialEq,
+{
+    let a = catch_unwind(AssertUnwindSafe(&f));
+    let b = catch_unwind(AssertUnwindSafe(&f));
+    let same = match (&a, &b) {
+        (Ok(x), Ok(y)) => x == y,
+        (Err(_), Err(_)) => true,
+        _ => false,
+    };
+    let first = match &a {
+        Ok(d) => graphs::observe(d),
+        Err(_) => V::atom("panic"),
+    };
+    vec![first, V::bool(same)]
 }
 
-pub fn gen(_rng: &mut Rng, _thorough: bool, _emit: &mut dyn FnMut(String)) {}
+pub fn eval(op: &str, args: &[V]) -> Option<Vec<V>> {
+    match op {
+        "rand_tournament" => {
+            let [repr, order, seed] = args else { return None };
+            let (n, seed) = (order.as_usize()?, seed.as_u64()?);
+            Some(match repr.as_atom()? {
+                "al" => twice(|| AdjacencyList::random_tournament(n, seed)),
+                "am" => twice(|| AdjacencyMap::random_tournament(n, seed)),
+                "mx" => twice(|| AdjacencyMatrix::random_tournament(n, seed)),
+                "el" => twice(|| EdgeList::random_tournament(n, seed)),
+                _ => return None,
+            })
+        }
+        "rand_rrt" => {
+            let [repr, order, seed] = args else { return None };
+            let (n, seed) = (order.as_usize()?, seed.as_u64()?);
+            Some(match repr.as_atom()? {
+                "al" => twice(|| AdjacencyList::random_recursive_tree(n, seed)),
+                "am" => twice(|| AdjacencyMap::random_recursive_tree(n, seed)),
+                "mx" => twice(|| AdjacencyMatrix::random_recursive_tree(n, seed)),
+                "el" => twice(|| EdgeList::random_recursive_tree(n, seed)),
+                _ => return None,
+            })
+        }
+        "rand_er" => {
+            let [repr, order, pbits, qbits, seed] = args else { return None };
+            let (n, seed) = (order.as_usize()?, seed.as_u64()?);
+            let p = f64::from_bits(pbits.as_u64()?);
+            if (1.0 - p).to_bits() != qbits.as_u64()? {
+                return None;
+            }
+            Some(match repr.as_atom()? {
+                "al" => twice(|| AdjacencyList::erdos_renyi(n, p, seed)),
+                "am" => twice(|| AdjacencyMap::erdos_renyi(n, p, seed)),
+                "mx" => twice(|| AdjacencyMatrix::erdos_renyi(n, p, seed)),
+                "el" => twice(|| EdgeList::erdos_renyi(n, p, seed)),
+                _ => return None,
+            })
+        }
+        "rand_f64" => {
+            let [seed, k] = args else { return None };
+            let mut rng = Xoshiro256StarStar::new(seed.as_u64()?);
+            Some(vec![V::L((0..k.as_usize()?).map(|_| V::I(i128::from(rng.next_f64().to_bits()))).collect())])
+        }
+        "rand_u64" => {
+            let [seed, k] = args else { return None };
+            let rng = Xoshiro256StarStar::new(seed.as_u64()?);
+            Some(vec![V::L(rng.take(k.as_usize()?).map(|x| V::I(i128::from(x))).collect())])
+        }
+        _ => None,
+    }
+}
+
+fn gen_seed(rng: &mut Rng) -> u64 {
+    match rng.below(12) {
+        0 => 0,
+        1 => 1,
+        2 => u64::MAX,            // seed + thread_id wraps for every worker but the first
+        3 => u64::MAX - 2,        // wraps from worker 3 on
+        4 => rng.below(1000) as u64,
+        _ => rng.next(),
+    }
+}
+
+/// Orders 1..=130: small, around the thread counts of the masks (1, 3, 16) and their multiples,
+/// far above the core count, not multiples of the chunk size.
+fn gen_order(rng: &mut Rng, max: usize) -> usize {
+    const EDGE: [usize; 22] = [1, 2, 3, 4, 5, 6, 7, 15, 16, 17, 18, 31, 32, 33, 47, 48, 49, 63, 64, 65, 129, 130];
+    let n = match rng.below(20) {
+        0..=7 => 1 + rng.below(9),
+        8..=11 => *rng.pick(&EDGE),
+        12..=16 => 10 + rng.below(40),
+        17..=18 => 50 + rng.below(41),
+        _ => 91 + rng.below(40),
+    };
+    n.min(max).max(1)
+}
+
+fn next_up(x: f64) -> f64 {
+    f64::from_bits(x.to_bits() + 1)
+}
+fn next_down(x: f64) -> f64 {
+    f64::from_bits(x.to_bits() - 1)
+}
+
+/// Returns (p, in range?)
+fn gen_p(rng: &mut Rng) -> f64 {
+    match rng.below(20) {
+        0 | 1 => 0.0,
+        2 | 3 => 1.0,
+        4 => 0.5,
+        5 => next_up(0.5),
+        6 => next_down(0.5),
+        7 => next_down(1.0),
+        8 => f64::from_bits(1),          // smallest subnormal
+        9 => -0.0,
+        10 | 18 | 19 => *rng.pick(&[-0.1, 1.5, f64::NAN, f64::INFINITY, f64::NEG_INFINITY, -f64::from_bits(1), next_up(1.0), -1.0, 2.0]),
+        11 | 12 => (rng.next() >> 11) as f64 / (1u64 << 53) as f64 * 0.5, // [0, 0.5)
+        13 | 14 => 0.5 + (rng.next() >> 11) as f64 / (1u64 << 53) as f64 * 0.5, // [0.5, 1)
+        15 => 1.0 / (1 + rng.below(20)) as f64,
+        16 => 1.0 - 1.0 / (2 + rng.below(20)) as f64,
+        _ => (rng.next() >> 11) as f64 / (1u64 << 53) as f64,
+    }
+}
+
+fn er_line(repr: &str, n: usize, p: f64, seed: u64) -> String {
+    format!("rand_er {repr} {n} {} {} {seed}", p.to_bits(), (1.0 - p).to_bits())
+}
+
+pub fn gen(rng: &mut Rng, thorough: bool, emit: &mut dyn FnMut(String)) {
+    let reprs = graphs::UNWEIGHTED;
+    // (1) exhaustive small scope: every order 1..=6 x 3 fixed seeds x every repr, all three generators
+    let small_max = if thorough { 9 } else { 5 };
+    for n in 1..=small_max {
+        for seed in [0u64, 1, u64::MAX] {
+            for repr in reprs {
+                emit(format!("rand_tournament {repr} {n} {seed}"));
+                emit(format!("rand_rrt {repr} {n} {seed}"));
+                for p in [0.0, 1.0, 0.5, 0.75] {
+                    emit(er_line(repr, n, p, seed));
+                }
+            }
+        }
+    }
+    // (2) the same (order, seed[, p]) for all four representations (the sequential ones must agree)
+    let rounds = if thorough { 330 } else { 26 };
+    let max_order = 130;
+    for _ in 0..rounds {
+        let n = gen_order(rng, max_order);
+        let seed = gen_seed(rng);
+        for repr in reprs {
+            emit(format!("rand_tournament {repr} {n} {seed}"));
+        }
+        let n = gen_order(rng, max_order);
+        let seed = gen_seed(rng);
+        for repr in reprs {
+            emit(format!("rand_rrt {repr} {n} {seed}"));
+        }
+        for _ in 0..2 {
+            let n = gen_order(rng, max_order);
+            let seed = gen_seed(rng);
+            let p = gen_p(rng);
+            for repr in reprs {
+                // the edge-list model inserts into a sorted list (quadratic): most large dense cases skip it
+                if repr == "el" && n > 70 && p > 0.25 && !rng.chance(1, 4) {
+                    continue;
+                }
+                emit(er_line(repr, n, p, seed));
+            }
+        }
+    }
+    // (3) extra weight on the threaded map variants (orders around / above the thread counts)
+    // orders whose split over 3 / 16 workers has a short last chunk or spawns fewer workers than `t`
+    const AROUND_T: [usize; 20] = [4, 4, 4, 5, 7, 8, 16, 17, 18, 20, 22, 26, 31, 33, 40, 47, 63, 100, 119, 130];
+    for _ in 0..(if thorough { 700 } else { 130 }) {
+        let n = if rng.chance(3, 4) { *rng.pick(&AROUND_T) } else { gen_order(rng, max_order) };
+        let seed = gen_seed(rng);
+        emit(format!("rand_tournament am {n} {seed}"));
+        let n = if rng.chance(3, 4) { *rng.pick(&AROUND_T) } else { gen_order(rng, max_order) };
+        let p = gen_p(rng);
+        emit(er_line("am", n, p, gen_seed(rng)));
+    }
+    // (4) out-of-range p for every representation, p = 0 / 1 on larger orders
+    for repr in reprs {
+        for p in [-0.1, 1.5, f64::NAN, f64::INFINITY, next_up(1.0), -f64::from_bits(1)] {
+            emit(er_line(repr, 1 + rng.below(20), p, gen_seed(rng)));
+        }
+        for p in [0.0, 1.0, -0.0] {
+            emit(er_line(repr, gen_order(rng, max_order), p, gen_seed(rng)));
+        }
+    }
+    // (5) raw PRNG: next() and next_f64() bit patterns
+    for seed in [0u64, 1, u64::MAX, 123] {
+        emit(format!("rand_u64 {seed} 64"));
+        emit(format!("rand_f64 {seed} 64"));
+    }
+    for _ in 0..(if thorough { 300 } else { 70 }) {
+        let seed = gen_seed(rng);
+        emit(format!("rand_u64 {seed} {}", 1 + rng.below(200)));
+        emit(format!("rand_f64 {seed} {}", if thorough { 2000 } else { 1000 }));
+    }
+    // (6) order 0 is outside the property (documented panic): correspondence only
+    for repr in reprs {
+        emit(format!("rand_tournament {repr} 0 7"));
+        emit(format!("rand_rrt {repr} 0 7"));
+        emit(er_line(repr, 0, 0.25, 7));
+    }
+}
